@@ -78,7 +78,11 @@ ARG2 = [7]  # second payload argument; varied per injection by run_shard
 ARG_SEQUENCE = (7, 8.0, "7", 7.0, 8, b"7", 10.0, 10, 11, 11.0, "8.0", 2**40, float(2**40), 12.0, 12,
                 b"z" * 300, [1, "a"], {"k": 2}, b"y" * 255, [], [[1], {"n": [2]}], "\u00e9" * 200,
                 # dicts are ordered: the callee must see the caller's insertion order
-                {"zeta": 1, "alpha": 2}, {10: "x", 9: "y", "a": [{"b": 1, "a": 2}]})
+                {"zeta": 1, "alpha": 2}, {10: "x", 9: "y", "a": [{"b": 1, "a": 2}]},
+                # other sequences / mappings / buffers: delivered as what they are, or refused
+                bytearray(b"ab"), range(3), (1, "t"), __import__("collections").deque([1, 2]), [bytearray(b"n")],
+                frozenset([1]), list(range(1000)),
+                {i: i for i in range(1000)})
 _ARG_CYCLE = [0]
 
 
@@ -186,7 +190,9 @@ def check(data, mode, kw, loader, shared_history=None):
         return None, "base-rejected"
     if loader == "py" and base["framed"]:
         return None, "framed-skipped-for-pure-python"
-    case = {"hex": data.hex(), "mode": mode, "kw": kw, "loader": loader, "arg2": repr(ARG2[0])}
+    # (the argument is recorded by its position in ARG_SEQUENCE; its repr is for the reader)
+    case = {"hex": data.hex(), "mode": mode, "kw": kw, "loader": loader, "arg2": repr(ARG2[0])[:200],
+            "arg2_index": next((i for i, a in enumerate(ARG_SEQUENCE) if a is ARG2[0]), None)}
     if mode.endswith("_qualified") and not any(o[0].name == "PROTO" and o[1] >= 4 for o in base["ops"]):
         return None, "qualified-name-needs-protocol-4"
     # every other mode builds its Pickled from one caller-owned opcode list per base, reused from
@@ -336,7 +342,10 @@ def replay(case):
         return kf_c08_2()
     import ast as _ast
 
-    ARG2[0] = _ast.literal_eval(case.get("arg2", "7"))
+    if case.get("arg2_index") is not None:
+        ARG2[0] = ARG_SEQUENCE[case["arg2_index"]]
+    else:
+        ARG2[0] = _ast.literal_eval(case.get("arg2", "7"))  # replay files written before arg2_index existed
     try:
         SHARED.update(data=None, ops=None, history=[])
         return check(bytes.fromhex(case["hex"]), case["mode"], case["kw"], case["loader"],
